@@ -126,7 +126,14 @@ func pipeScenario(r *rand.Rand, kind int) (desc string, steps []readStep) {
 		}
 		return sb.String()
 	}
-	switch kind % 8 {
+	switch kind % 10 {
+	case 8, 9: // a lexical failure (or a syntax error) in the first page, and the read that is in flight meanwhile fails
+		src := lines(1+r.Intn(3), func(int) bool { return false }) + pickS(r, "$\n", "print \"x\n", "def b { $ }\n", "print )\n") + lines(2, func(int) bool { return false })
+		st := []readStep{{data: []byte(src)}, {err: errScripted}}
+		if kind%10 == 9 {
+			st = append(chopped(src, 30, r), readStep{err: errScripted})
+		}
+		return "failure-then-read-error", st
 	case 6: // the input ends in the middle of a multi-byte character (in a comment, in a string, at toplevel)
 		tail := pickS(r, "# caf\xc3", "print \"\xe2\x82", "print 1\n\xc2", "def b {\n f = 1 }\n\xe2")
 		st := chopped(lines(4, func(int) bool { return false })+tail, 9, r)
@@ -138,6 +145,9 @@ func pipeScenario(r *rand.Rand, kind int) (desc string, steps []readStep) {
 		return "read-error wrapping io.EOF", st
 	case 0: // many erroneous lines read a few bytes at a time: diagnostics while the lexer refills
 		n := 20 + r.Intn(60)
+		if r.Intn(3) == 0 {
+			n += 150 // far more diagnostics than any plausible cap on them, and plenty of input after that
+		}
 		m := 5 + r.Intn(30)
 		return fmt.Sprintf("erroneous-lines n=%d m=%d", n, m), chopped(lines(n, func(i int) bool { return i%3 != 1 }), m, nil)
 	case 1: // valid multi-chunk program
